@@ -165,7 +165,7 @@ func vDispatch(maxRoutes int) {
 		filter = vAscii2("req.filter")
 		req.message.(*SearchMessage).Filter = filter
 	}
-	w, err := newResponseWriter(c.writer, &c.writerMu, c.logger, c.connID, 1)
+	w, err := newResponseWriter(c.writer, &c.writerMu, c.logger, int(c.connID), 1)
 	vAssume(err == nil)
 
 	m.serve(w, req)
@@ -300,7 +300,7 @@ func H_C03_sequence() {
 		op := refApp(ApplicationSearchRequest, refOctet(base), refEnum(scope), refEnum(0), refInt(0), refInt(0), refBool(false), refCtxPrim(7, "objectClass"), refSeq())
 		req, err := newRequest(k+1, c, &packet{Packet: vWire(refEnvelope(int64(k+1), op, nil))})
 		vAssume(err == nil && req != nil)
-		w, err := newResponseWriter(c.writer, &c.writerMu, c.logger, c.connID, k+1)
+		w, err := newResponseWriter(c.writer, &c.writerMu, c.logger, int(c.connID), k+1)
 		vAssume(err == nil)
 		before := len(calls)
 		m.serve(w, req)
@@ -373,7 +373,7 @@ func H_C03_manyroutes() {
 	op := refApp(ApplicationSearchRequest, refOctet(bases[which]), refEnum(2), refEnum(0), refInt(0), refInt(0), refBool(false), refCtxPrim(7, "objectClass"), refSeq())
 	req, err := newRequest(1, c, &packet{Packet: vWire(refEnvelope(1, op, nil))})
 	vAssume(err == nil && req != nil)
-	w, err := newResponseWriter(c.writer, &c.writerMu, c.logger, c.connID, 1)
+	w, err := newResponseWriter(c.writer, &c.writerMu, c.logger, int(c.connID), 1)
 	vAssume(err == nil)
 	m.serve(w, req)
 	vAssert(len(calls) == 1, "exactly one handler runs")
